@@ -24,8 +24,8 @@ def make_frame(rng, n, recipe):
             rows.append({"id": [1000 + i] * k, "v": [gen.gen_value(rng, schema[1][1]) for _ in range(k)]})
     ca = gen.make_layout(rng, schema, rows, recipe)
     labels, kind = gen.gen_labels(rng, n)
-    nf = NestedFrame({"rid": [1000 + i for i in range(n)], "w": [rng.choice([1, 2, 2, 3]) for _ in range(n)]}, index=labels)
-    nf["n"] = pd.Series(NEA(ca), index=labels, name="n")
+    nf = NestedFrame({"rid": [1000 + i for i in range(n)], "w": [rng.choice([1, 2, 2, 3]) for _ in range(n)]}, index=gen.as_index(labels, kind))
+    nf["n"] = pd.Series(NEA(ca), index=nf.index, name="n")
     return nf, rows, labels, kind
 
 
